@@ -20,6 +20,40 @@ class Calls(Interp):
     # ================================================================================================ call dispatch
 
     def call_expr(self, e, st):
+        # super().method(...): the next definition of `method` after the current function's class in the object's MRO
+        if isinstance(e.func, ast.Attribute) and isinstance(e.func.value, ast.Call) and isinstance(e.func.value.func, ast.Name) \
+                and e.func.value.func.id == 'super' and not e.func.value.args and not e.func.value.keywords:
+            qn = (st.frame.qualname or '').split('#')[0].split(':')[0]
+            try:
+                owner = self.resolve(qn.rsplit('.', 1)[0])
+            except Exception:
+                owner = None
+            me = st.frame.vars.get('self')
+            if not isinstance(owner, type) or not isinstance(me, Ref):
+                raise Outside("super() outside a method of a known class")
+            real = st.heap[me.loc].cls
+            mro = list(getattr(real, '__mro__', ()))
+            if owner not in mro:
+                raise Outside("super(): %s is not in the MRO of %r" % (owner.__name__, real))
+            fn = None
+            for k in mro[mro.index(owner) + 1:]:
+                if e.func.attr in k.__dict__:
+                    fn = k.__dict__[e.func.attr]
+                    break
+            if fn is None or fn is object.__init__:
+                yield st, None
+                return
+            for s2, args in self.ev_list(e.args, st):
+                if isinstance(args, Raised):
+                    yield s2, args
+                    continue
+                kw = {}
+                s3 = s2
+                for k_ in e.keywords:
+                    (s3, val), = list(self.ev(k_.value, s3))
+                    kw[k_.arg] = val
+                yield from self.call_function(fn, [me] + list(args), kw, s3, inline=True)
+            return
         # special forms that need the un-evaluated argument
         if isinstance(e.func, ast.Name):
             n = e.func.id
@@ -384,6 +418,8 @@ class Calls(Interp):
 
     def class_validity(self, ci, v, st, depth):
         """condition under which ci's real __init__ returns normally on v's own field values, and rebuilds v"""
+        if getattr(ci, 'no_invariant', False):
+            return True         # a record standing for an object of an external library: no constructor of ours to consult
         key = ('valid', ci.name)
         init = ci.pyclass.__init__
         conds = []
@@ -883,6 +919,29 @@ class Calls(Interp):
             yield st, (args[1] if len(args) > 1 else None)
             return
         yield from self.v_map_get(h.val, args, kwargs, st, e)
+
+    def m_dict_pop(self, ref, h, args, kwargs, st, e):
+        """d.pop(k[, default]): the value (or the default / KeyError), and k is gone afterwards"""
+        if h.val is None:
+            if len(args) > 1:
+                yield st, args[1]
+            else:
+                yield st, Raised(ExcVal(KeyError))
+            return
+        m = h.val
+        vty = m.ty.args[1]
+        o = opt_sort(to_sort(vty, self.reg))
+        kt = self.key_term(args[0], m.ty.args[0], st)
+        cell = z3.Select(m.t, kt)
+        for s2, present in self.branch(st, o.is_some(cell), "L%s:pop-key?" % getattr(e, 'lineno', '?')):
+            h2 = s2.heap[ref.loc]
+            if present:
+                self._store_container(s2, ref, h2, V(z3.Store(m.t, kt, o.none), m.ty))
+                yield s2, V(o.val(cell), vty)
+            elif len(args) > 1:
+                yield s2, args[1]
+            else:
+                yield s2, Raised(ExcVal(KeyError))
 
     def m_dict_keys(self, ref, h, args, kwargs, st, e):
         yield st, IterV('keys', ref)
